@@ -177,3 +177,24 @@ class ToSympy:
                 return self.tr(e.args[0]) ** self.tr(e.args[1])
             raise AnalysisError(f'call {name} is not translatable')
         raise AnalysisError(f'expression {U.src(e)} is not translatable')
+
+
+def push_slices(e):
+    """(a op b)[S] -> a[S] op b[S] for elementwise arithmetic (constants stay unsliced).  Only valid where the
+    operands have the same shape or are scalars; callers use it on 1-D class arrays."""
+    import copy
+
+    class T(ast.NodeTransformer):
+        def visit_Subscript(self, node):
+            self.generic_visit(node)
+            v = node.value
+            if isinstance(v, ast.BinOp) and isinstance(v.op, (ast.Add, ast.Sub, ast.Mult, ast.Div)):
+                def sl(x):
+                    if isinstance(x, ast.Constant) or (isinstance(x, ast.UnaryOp) and isinstance(x.operand, ast.Constant)):
+                        return x
+                    return self.visit(ast.Subscript(value=x, slice=copy.deepcopy(node.slice), ctx=ast.Load()))
+                return ast.BinOp(left=sl(v.left), op=v.op, right=sl(v.right))
+            if isinstance(v, ast.UnaryOp) and isinstance(v.op, ast.USub):
+                return ast.UnaryOp(op=v.op, operand=self.visit(ast.Subscript(value=v.operand, slice=copy.deepcopy(node.slice), ctx=ast.Load())))
+            return node
+    return ast.fix_missing_locations(T().visit(copy.deepcopy(e)))
